@@ -22,6 +22,10 @@ EXEMPT = {'BSC_getpid', 'BSC_getuid', 'BSC_geteuid', 'BSC_getppid', 'BSC_getegid
           'BSC_sync', 'BSC_sys_getdtablesize', 'BSC_getlogin', 'BSC_execve', 'BSC_vfork', 'BSC_bsdthread_create',
           'BSC_abort_with_payload'}
 ERR_WORDS = [1, 2, 13, 35, 45, 106, 9999, (1 << 32) + 5, (1 << 64) - 1]
+# small NEGATIVE error numbers as the kernel may leave them in the word (xnu's pseudo errors ERESTART -1, EJUSTRETURN -2, … -7),
+# sign-extended to 64 bits, as a 32-bit word, and with other high bits: non-zero words, so errors
+ERR_WORDS += [(1 << 64) - k for k in (2, 3, 5, 7)] + [(1 << 32) - k for k in (1, 2, 5)] + [(0x100 << 32) + (1 << 32) - 2, 1 << 32,
+                                                                                            1 << 63, 0x80000000]
 
 
 def bsd_names(only_supported=True):
